@@ -142,8 +142,11 @@ class Enc:
         self.encoded = False
         self.order = []         # ('mod', r, terms, const) | ('mul', t, a, b) in creation order
         self.linrows = []       # purely linear gate rows: (const, {atom: symmetric coef})
-        self.powers = {}        # atom -> (base atom, exponent): atom is known to equal base^exponent in F_p
-        self.powatom = {}       # (base, exponent) -> canonical atom
+        self.monos_of = {}      # atom -> sorted tuple of base atoms whose product it is known to equal in F_p
+        self.monoatom = {}      # multiset (sorted tuple) -> canonical atom
+        self.used_as_base = set()
+        self.dropped_rows = []  # linear rows replaced by their composed chain equation
+        self.dropped_atoms = set()   # private remainder cells eliminated with them (recomputed for models)
         self.linrow_lines = {}  # row index -> (start, end) range of self.lines it emitted
         self.occ = {}           # atom -> number of constraints (gates, lookup inputs) mentioning it
         self.skip_gate = None   # predicate(gate dict) -> True: leave this gate row to a specialised engine
@@ -401,16 +404,21 @@ class Enc:
         self.prods[key] = t
         self.prod_list.append((t, a, b))
         self.order.append(("mul", t, a, b))
-        # powers of one variable: x^i * x^j = x^(i+j) whatever the product tree (sound in any commutative ring)
-        pa = self.powers.get(a, (a, 1))
-        pb = self.powers.get(b, (b, 1))
-        if pa[0] == pb[0]:
-            pk = (pa[0], pa[1] + pb[1])
-            self.powers[t] = pk
-            if pk in self.powatom:
-                self.lines.append(f"(assert (= {t} {self.powatom[pk]}))")
+        # monomial normalisation: a product of (products of) cells is determined by the multiset of its
+        # base cells whatever the product tree (commutativity + associativity, sound in any commutative
+        # ring): the first atom built for a multiset is canonical, later ones are asserted equal to it.
+        ma = self.monos_of.get(a, (a,))
+        mb = self.monos_of.get(b, (b,))
+        for x_ in (a, b):
+            if x_ not in self.monos_of:
+                self.used_as_base.add(x_)
+        mk = tuple(sorted(ma + mb))
+        if len(mk) <= 64:
+            self.monos_of[t] = mk
+            if mk in self.monoatom:
+                self.lines.append(f"(assert (= {t} {self.monoatom[mk]}))")
             else:
-                self.powatom[pk] = t
+                self.monoatom[mk] = t
         return t
 
     # ---- constraints --------------------------------------------------------------------------
@@ -489,11 +497,11 @@ class Enc:
                 self.modeq([(-1, t)] + [(sym(k, P), self.fmul(x, b)) for k, b in grp] + ([(sym(cx, P), x)] if cx else []), 0)
         terms += [(sym(c, P), n) for n, c in lin.items() if c % P]
         if len(terms) == 2 and sym(const, P) == 0 and terms[0][0] == -terms[1][0] and abs(terms[0][0]) == 1:
-            # row "cell = product": the cell inherits what is known about the product (powers of a variable)
+            # row "cell = product": the cell inherits the monomial the product is known to be
             (c1, a1), (c2, a2) = terms
             for src, dst in ((a1, a2), (a2, a1)):
-                if src in self.powers and dst not in self.powers and self.ub.get(dst, P) >= P:
-                    self.powers[dst] = self.powers[src]
+                if src in self.monos_of and dst not in self.monos_of and self.ub.get(dst, P) >= P and dst not in self.used_as_base:
+                    self.monos_of[dst] = self.monos_of[src]
         if self.small_domain_row(terms, sym(const, P)):
             return
         self.modeq(terms, sym(const, P))
@@ -836,6 +844,8 @@ class Enc:
                 self.modeq([(1, S), (-1, x)], 0)
             private = all(self.occ.get(a, 0) == 2 and a not in io_atoms for a in elim)
             if private and len(used) >= 3:
+                self.dropped_rows += [self.linrows[ri] for ri in used]
+                self.dropped_atoms |= set(elim)
                 for ri in used:
                     if ri in self.linrow_lines:
                         st, en = self.linrow_lines[ri]
@@ -972,3 +982,23 @@ class Enc:
                 _, t, a, b = item
                 val[t] = g(a) * g(b) % P
         return val
+
+    def repair_model(self, assign):
+        """A model leaves the eliminated private remainder cells of subsumed chains unconstrained:
+        recompute them from the dropped rows (each row determines one of them) so that the assignment can
+        be checked exactly and replayed."""
+        P = self.P
+        todo = set(self.dropped_atoms)
+        progress = True
+        while todo and progress:
+            progress = False
+            for const, lin in self.dropped_rows:
+                unk = [a for a in lin if a in todo]
+                if len(unk) != 1:
+                    continue
+                u = unk[0]
+                rest = const + sum(c * assign.get(a, 0) for a, c in lin.items() if a != u)
+                assign[u] = (-rest * pow(lin[u], -1, P)) % P
+                todo.discard(u)
+                progress = True
+        return assign
